@@ -66,6 +66,19 @@ Theorem update_logs_every_update : forall c t0 ss f0 pre i kvs mid r,
 Proof. exact update_logs_l. Qed.
 Print Assumptions update_logs_every_update.
 
+(* the same under the EXACT condition of the known finding: the loggee is not written in the very tick in
+   which this log wrote its last record (Log.stamp <> store.stamp at the write).  In particular an update made
+   after the logger in a tick where the logger wrote NOTHING is recorded by the next run. *)
+Theorem update_logs_every_update_sharp : forall c t0 ss f0 pre i kvs mid r,
+  crule c = Update -> is_loggee c i = true -> (i < length ss)%nat ->
+  lstamp (run c t0 ss f0 pre) <> Some (now (run c t0 ss f0 pre)) ->
+  forallb is_world mid = true -> (r = Run \/ r = Stop) ->
+  let s := run c t0 ss f0 (pre ++ Write i kvs :: mid) in
+  active s = true ->
+  recs (file (step c s r)) = recs (file s) ++ [Rec (now s) (cells (shares s) (clog c) (pfields s))].
+Proof. exact update_logs_sharp_l. Qed.
+Print Assumptions update_logs_every_update_sharp.
+
 (* 'update' writes nothing at a run when no loggee was updated since the previous logger run *)
 Theorem update_no_spurious_record : forall c t0 ss f0 pre r1 mid r2,
   crule c = Update -> stamps_le t0 ss ->
@@ -221,4 +234,10 @@ Example c22_streak_mapping_nonvacuous :
               [{| sdata := [(0, VM [])]; sstamp := Some 0; sdeck := [] |}] None
               [Start; Put O 0 5 1; Put O 0 3 2; Put O 0 4 3; Tick; Run; Put O 0 9 4; Tick; Stop])) =
   [Rec 1 [Some (VP 5 1)]; Rec 1 [Some (VP 3 2)]; Rec 1 [Some (VP 4 3)]; Rec 2 [Some (VP 9 4)]].
+Proof. vm_compute. reflexivity. Qed.
+
+(* the logger runs in tick 1 and writes nothing; the loggee is updated later in tick 1; the next run records it *)
+Example c22_update_after_silent_run :
+  recs (file (run wit_c 0 wit_ss None [Start; Tick; Run; Write O [(0, VZ 7)]; Tick; Run; Stop])) =
+  [Rec 0 [Some (VZ 1)]; Rec 2 [Some (VZ 7)]].
 Proof. vm_compute. reflexivity. Qed.
